@@ -230,6 +230,8 @@ class Case:
             oid = a[0]
             fo = prov._mock_fs.get(oid)
             src = fo.path if fo is not None else None
+            if src is None and prov.oid_is_path and isinstance(oid, str):
+                src = oid       # path-style: the id IS the path the call addresses, whether or not anything is there
             if name == "rename":
                 return src, a[1]
             return src, None
